@@ -424,8 +424,8 @@ impl<'tcx> Cx<'tcx> {
 
     fn body(&mut self, did: DefId) -> J {
         let tcx = self.tcx;
-        let body = tcx.optimized_mir(did);
         let kind = tcx.def_kind(did);
+        let body = if matches!(kind, DefKind::Const { .. } | DefKind::AssocConst { .. }) { tcx.mir_for_ctfe(did) } else { tcx.optimized_mir(did) };
         let mut o: Vec<(&'static str, J)> = vec![
             ("path", s(self.path(did))),
             ("hash", s(self.hash(did))),
@@ -642,12 +642,20 @@ fn emit<'tcx>(tcx: TyCtxt<'tcx>, outdir: &str) {
     let mut cx = Cx { tcx, types: BTreeMap::new() };
     let crate_name = tcx.crate_name(LOCAL_CRATE).to_string();
     let mut bodies = vec![];
+    let mut const_bodies = vec![];
     for ldid in tcx.hir_body_owners() {
         let did = ldid.to_def_id();
-        if !matches!(tcx.def_kind(did), DefKind::Fn | DefKind::AssocFn | DefKind::Closure) {
-            continue;
+        match tcx.def_kind(did) {
+            DefKind::Fn | DefKind::AssocFn | DefKind::Closure => bodies.push(cx.body(did)),
+            // bodies of generic associated constants (e.g. `const CHANNELS: usize = N`) cannot be evaluated: keep their MIR
+            DefKind::AssocConst { .. } => {
+                let g = tcx.generics_of(did);
+                if g.count() != 0 || g.parent_count != 0 {
+                    const_bodies.push(cx.body(did));
+                }
+            }
+            _ => {}
         }
-        bodies.push(cx.body(did));
     }
     // items
     let mut adts = vec![];
@@ -770,6 +778,7 @@ fn emit<'tcx>(tcx: TyCtxt<'tcx>, outdir: &str) {
         ("consts", J::A(consts)),
         ("fns", J::A(fns_nobody)),
         ("bodies", J::A(bodies)),
+        ("const_bodies", J::A(const_bodies)),
         ("types", J::M(types)),
     ]);
     let mut out = String::new();
